@@ -280,6 +280,15 @@ func makeUDPBuffer(size int) func() interface{} {
 	}
 }
 
+// getUDPBuffer returns a read buffer of UDPSize octets. The pool outlives a Shutdown: a buffer left in it
+// by an earlier start of this Server with another UDPSize is not used.
+func (srv *Server) getUDPBuffer() []byte {
+	if m := srv.udpPool.Get().([]byte); len(m) == srv.UDPSize {
+		return m
+	}
+	return make([]byte, srv.UDPSize)
+}
+
 func (srv *Server) init() {
 	srv.shutdown = make(chan struct{})
 	srv.conns = make(map[net.Conn]struct{})
@@ -729,7 +738,7 @@ func (srv *Server) readUDP(conn *net.UDPConn, timeout time.Duration) ([]byte, *S
 	}
 	srv.lock.RUnlock()
 
-	m := srv.udpPool.Get().([]byte)
+	m := srv.getUDPBuffer()
 	n, s, err := ReadFromSessionUDP(conn, m)
 	if err != nil {
 		srv.udpPool.Put(m)
@@ -747,7 +756,7 @@ func (srv *Server) readPacketConn(conn net.PacketConn, timeout time.Duration) ([
 	}
 	srv.lock.RUnlock()
 
-	m := srv.udpPool.Get().([]byte)
+	m := srv.getUDPBuffer()
 	n, addr, err := conn.ReadFrom(m)
 	if err != nil {
 		srv.udpPool.Put(m)
